@@ -718,6 +718,15 @@ def devectorise(t: T) -> T:
                     hole = T("elem", it, lid)
                     return base.args[1].map(
                         lambda y: col if y is hole else None)
+            # np.array(pairs, dtype=int).T[k]: column k of the pair list
+            if c.op == "attr" and c.args[1] == "T" and k >= 0 and \
+                    is_call_to(c.args[0], "numpy.array", "numpy.asarray") \
+                    and len(c.args[0].args[1]) == 1 and all(
+                        kw == "dtype" for kw, _ in c.args[0].args[2]):
+                P = c.args[0].args[1][0]
+                L = _fresh(P)
+                return T("comp", "list", tm.sub(T("elem", P, L), const(k)),
+                         ((P, L),), ())
             if is_call_to(base, "builtins.zip") and \
                     len(base.args[1]) == 1 and \
                     base.args[1][0].op == "star" and k >= 0:
@@ -725,6 +734,27 @@ def devectorise(t: T) -> T:
                 L = _fresh(P)
                 return T("comp", "list", tm.sub(T("elem", P, L), const(k)),
                          ((P, L),), ())
+        # map fusion: [f(y) for y in [g(x) for x in X]] = [f(g(x)) for x in X]
+        if x.op == "comp" and len(x.args[2]) == 1 and \
+                x.args[0] in ("list", "gen"):
+            it, lid = x.args[2][0]
+            inner = it
+            while is_call_to(inner, "numpy.array", "numpy.asarray",
+                             "builtins.list") and len(inner.args[1]) == 1 \
+                    and not inner.args[2]:
+                inner = inner.args[1][0]
+            if inner.op == "comp" and inner.args[0] in ("list", "gen") and \
+                    len(inner.args[2]) == 1 and not inner.args[3]:
+                src, il = inner.args[2][0]
+                hole = T("elem", it, lid)
+                uses_index = any(y.op == "index" and y.args[0] == lid
+                                 for z in (x.args[1],) + tuple(x.args[3])
+                                 for y in z.walk())
+                if not uses_index:
+                    sub_ = lambda z: z.map(lambda y: inner.args[1]
+                                           if y is hole else None)
+                    return T("comp", x.args[0], sub_(x.args[1]),
+                             ((src, il),), tuple(sub_(c) for c in x.args[3]))
         # fancy indexing with an element-wise index array
         if x.op == "sub":
             ci = _as_comp(x.args[1])
@@ -1286,3 +1316,62 @@ def dict_priority(t: T, unname=lambda v: v, depth: int = 0
     if t.op in ("ite", "loopout", "loopvar", "upd"):
         return None
     return [t]
+
+
+def push_elem(t: T) -> T:
+    """element l of an array computed element-wise is the computation applied
+    to element l: elem(X.tolist()) = elem(X), elem(X.astype(ty)) =
+    ty(elem(X)), elem(np.floor(X)) = np.floor(elem(X)), elem(A op B) =
+    elem(A) op elem(B) (a scalar stays itself), elem(np.divmod(A, c)[k]) =
+    divmod(elem(A), c)[k].  Vectorised preparation of per-message values thus
+    reads like the per-message code."""
+    INT = ("numpy.int64", "numpy.int32", "builtins.int", "numpy.intp")
+    FLT = ("numpy.float64", "builtins.float")
+
+    def arrayish(x: T) -> bool:
+        return not (tm.is_const(x) or x.op in ("param",) and False)
+
+    def pe(x: T, lid) -> T:
+        x0 = x
+        while x0.op == "named":
+            x0 = x0.args[1]
+        if tm.is_const(x0) or x0.op == "param" and x0.args[0] in (
+                "max_diff", "delta"):
+            return x0
+        e_ = T("elem", x, lid)
+        r_ = rw(e_)
+        return e_ if r_ is None else r_
+
+    def rw(x: T):
+        if x.op != "elem":
+            return None
+        a, lid = x.args
+        if is_call_to(a, ".tolist") and not a.args[1]:
+            return rw(T("elem", tm.method_recv(a), lid)) or \
+                T("elem", tm.method_recv(a), lid)
+        if is_call_to(a, ".astype") and len(a.args[1]) == 1:
+            ty = a.args[1][0]
+            inner = T("elem", tm.method_recv(a), lid)
+            inner = rw(inner) or inner
+            if ty.op == "global" and ty.args[0] in INT:
+                return tm.call(tm.glob("builtins.int"), (inner,), ())
+            if ty.op == "global" and ty.args[0] in FLT:
+                return tm.call(tm.glob("builtins.float"), (inner,), ())
+            return None
+        if is_call_to(a, "numpy.floor", "numpy.ceil", "numpy.abs",
+                      "numpy.rint", "numpy.trunc") and len(a.args[1]) == 1:
+            inner = T("elem", a.args[1][0], lid)
+            return tm.call(a.args[0], (rw(inner) or inner,), ())
+        if a.op == "binop" and a.args[0] in ("Add", "Sub", "Mult", "Div",
+                                             "FloorDiv", "Mod"):
+            return T("binop", a.args[0], pe(a.args[1], lid),
+                     pe(a.args[2], lid))
+        if a.op == "sub" and tm.is_const(a.args[1]) and is_call_to(
+                a.args[0], "numpy.divmod", "builtins.divmod") and \
+                len(a.args[0].args[1]) == 2:
+            num, den = a.args[0].args[1]
+            return tm.sub(tm.call(tm.glob("builtins.divmod"),
+                                  (pe(num, lid), pe(den, lid)), ()),
+                          a.args[1])
+        return None
+    return t.map(rw)
